@@ -47,7 +47,8 @@ REPL_FIELDS = ["year", "month", "day", "hour", "minute", "second", "microsecond"
 LEAN_TY = {"Int": "Int", "OptInt": "Option Int", "Bool": "Bool", "RD": "RD", "Temporal": "RDM.Temporal", "TD": "Int",
            "OptWd": "Option (Int × Option Int)", "Wd": "(Int × Option Int)", "OptWdArg": "Option RDM.WdArg",
            "Repl": "RDPy.Repl", "Kw": "RDM.Kw", "CmpOp": "RDPy.CmpOp", "OptPair": "Option (Int × Int)",
-           "HashKey": "List RDM.HashElt", "Dy": "RDPy.Dy", "Pow2": "RDPy.Pow2"}
+           "HashKey": "List RDM.HashElt", "Dy": "RDPy.Dy", "Pow2": "RDPy.Pow2", "Str": "String",
+           "StrList": "List String"}
 RESERVED = {"end", "from", "at", "fun", "do", "then", "else", "if", "open", "in", "let", "have", "show", "by", "match"}
 
 
@@ -59,7 +60,8 @@ class RFn:
     """one Lean function to produce from one Python method"""
 
     def __init__(self, qualname, leanname, params, ret, self_type="RD", statics=None, ctx=(), init_self=False,
-                 returns_self=False):
+                 returns_self=False, pick=None):
+        self.pick = pick                # "getter" / "setter" of a property (two functions of one name)
         self.qualname = qualname        # e.g. relativedelta.__add__
         self.leanname = leanname
         self.params = params            # [(pyname, type)] excluding self; type "None" = absent (static None)
@@ -162,6 +164,10 @@ class Tr:
             if [t for _, t in parts] == ["Int", "Int"]:
                 return "(%s, %s)" % (parts[0][0], parts[1][0]), "Pair"
             raise Untranslatable("tuple value")
+        if isinstance(e, ast.List) and not e.elts:
+            return "([] : List String)", "StrList"          # the only empty list of the fragment: parts of __repr__
+        if isinstance(e, ast.Attribute) and e.attr == "__name__" and ast.unparse(e.value) == "self.__class__":
+            return St("relativedelta"), "Static"            # the class itself (a subclass would print its own name)
         if isinstance(e, ast.List) and all(isinstance(x, ast.Constant) and isinstance(x.value, int) for x in e.elts):
             return St([x.value for x in e.elts]), "Static"
         if isinstance(e, ast.Subscript):
@@ -205,7 +211,14 @@ class Tr:
         # self.x / other.x / dt.year / td.days / self.weekday.weekday / operator.gt
         if isinstance(e.value, ast.Name) and e.value.id == "operator" and e.attr in ("lt", "gt"):
             return "RDPy.CmpOp.%s" % e.attr, "CmpOp"
+        if e.attr == "__name__" and ast.unparse(e.value) == "self.__class__":
+            return St("relativedelta"), "Static"            # the class itself (a subclass would print its own name)
         base, bty = self.E(e.value, pre)
+        if bty == "RD" and e.attr == "weeks":
+            # the `weeks` PROPERTY: reading it runs the translated getter
+            t = self.fresh("p")
+            pre.append((t, "weeks %s" % base, "Int"))
+            return t, "Int"
         if bty == "RD":
             if e.attr not in RD_FIELDS: raise Untranslatable("relativedelta.%s" % e.attr)
             return "%s.%s" % (base, RD_LEAN.get(e.attr, e.attr)), RD_FIELDS[e.attr]
@@ -301,6 +314,13 @@ class Tr:
         f = e.func
         if isinstance(f, ast.Name):
             n = f.id
+            if n == "int" and len(e.args) == 1 and isinstance(e.args[0], ast.BinOp) and isinstance(e.args[0].op, ast.Div) \
+                    and isinstance(e.args[0].right, ast.Constant) and isinstance(e.args[0].right.value, float) \
+                    and e.args[0].right.value == int(e.args[0].right.value) and 0 < e.args[0].right.value < 2 ** 31:
+                # int(x / 7.0): the float quotient truncated toward zero (the exact quotient while |x| < 2**53)
+                t, ty = self.E(e.args[0].left, pre)
+                if ty != "Int": raise Untranslatable("int(%s / float)" % ty)
+                return "(RDPy.tquot %s %d)" % (t, int(e.args[0].right.value)), "Int"
             if n in ("int", "float") and len(e.args) == 1:
                 t, ty = self.E(e.args[0], pre)
                 if ty == "Dy":                  # a float that is exactly m / 2^k (Model/RDPy.lean)
@@ -316,6 +336,15 @@ class Tr:
                                              and e.args[1].value >= 0):
                     raise Untranslatable("round(x, n) with a non-literal / negative n")
                 return t, "Int"                 # rounding an integer to >= 0 decimals is the identity
+            if n == "repr" and len(e.args) == 1:
+                t, ty = self.E(e.args[0], pre)
+                if ty == "Int": return "(RDPy.reprInt %s)" % t, "Str"
+                if ty == "OptInt": return "(RDPy.reprOptInt %s)" % t, "Str"
+                if ty in ("Wd", "OptWd"):                   # repr of a weekday object = the translated weekday.__repr__
+                    r = self.fresh("s")
+                    pre.append((r, ("Gen.wdRepr %s" if ty == "Wd" else "RDPy.reprOptWd Gen.wdRepr %s") % t, "Str"))
+                    return r, "Str"
+                raise Untranslatable("repr of %s" % ty)
             if n == "abs":
                 t, ty = self.E(e.args[0], pre)
                 if ty != "Int": raise Untranslatable("abs of %s" % ty)
@@ -348,6 +377,26 @@ class Tr:
                 pre.append((t, "RDPy.cmpApply off %s %s %s" % (n, a, b), "Bool"))
                 return t, "Bool"
             raise Untranslatable("call %s" % n)
+        if isinstance(f, ast.Attribute) and f.attr == "format" and isinstance(f.value, ast.Constant) \
+                and isinstance(f.value.value, str) and not e.args:
+            import string
+            kw = {k.arg: self.E(k.value, pre) for k in e.keywords}
+            parts = []
+            for lit, field, spec, conv in string.Formatter().parse(f.value.value):
+                if lit: parts.append('"%s"' % lit.replace('"', '\\"'))
+                if field is None: continue
+                if field not in kw or conv: raise Untranslatable("format field {%s!%s}" % (field, conv))
+                t, ty = kw[field]
+                if ty == "Static" and isinstance(t.v, str) and not spec: parts.append('"%s"' % t.v)
+                elif ty == "Str" and not spec: parts.append(t)
+                elif ty == "Int" and spec == "+g": parts.append("(RDPy.fmtPlusG %s)" % t)
+                else: raise Untranslatable("format field {%s:%s} of %s" % (field, spec, ty))
+            return "(" + " ++ ".join(parts or ['""']) + ")", "Str"
+        if isinstance(f, ast.Attribute) and f.attr == "join" and isinstance(f.value, ast.Constant) \
+                and isinstance(f.value.value, str) and len(e.args) == 1:
+            t, ty = self.E(e.args[0], pre)
+            if ty != "StrList": raise Untranslatable("join of %s" % ty)
+            return '(String.intercalate "%s" %s)' % (f.value.value, t), "Str"
         if isinstance(f, ast.Attribute):
             # calendar.isleap / datetime.timedelta / datetime.datetime.fromordinal(x.toordinal())
             if f.attr == "isleap":
@@ -537,6 +586,11 @@ class Tr:
                 if isinstance(n, ast.Call):
                     f = n.func
                     nm = f.id if isinstance(f, ast.Name) else f.attr
+                    if isinstance(f, ast.Name) and nm == "repr" and len(n.args) == 1:
+                        try:
+                            if self.peek_type(n.args[0]) in ("Wd", "OptWd"): return True     # weekday.__repr__: IndexError
+                        except Untranslatable:
+                            pass
                     if nm in ("monthrange", "replace", "__class__", "__add__", "__radd__", "__neg__", "__rsub__") \
                             or (isinstance(f, ast.Name) and self.types.get(nm) == "CmpOp"):
                         return True
@@ -585,6 +639,9 @@ class Tr:
             elif isinstance(s, ast.Expr) and isinstance(s.value, ast.Call) and isinstance(s.value.func, ast.Attribute) \
                     and s.value.func.attr in ("_fix", "_set_months"):
                 add("self")
+            elif isinstance(s, ast.Expr) and isinstance(s.value, ast.Call) and isinstance(s.value.func, ast.Attribute) \
+                    and s.value.func.attr == "append" and isinstance(s.value.func.value, ast.Name):
+                add(s.value.func.value.id)
             elif isinstance(s, ast.Try):
                 for n in self.assigned(s.body): add(n)
         return out
@@ -638,6 +695,13 @@ class Tr:
                 pre = []
                 a, ta = self.E(v.args[0], pre)
                 return self.wrap(pre, "let self := Gen.setMonths self %s\n" % a + nxt())
+            if isinstance(v, ast.Call) and isinstance(v.func, ast.Attribute) and v.func.attr == "append" and len(v.args) == 1 \
+                    and isinstance(v.func.value, ast.Name) and self.types.get(v.func.value.id) == "StrList":
+                pre = []
+                a, ta = self.E(v.args[0], pre)
+                if ta != "Str": raise Untranslatable("append of %s to a list of str" % ta)
+                n = self.lname(v.func.value.id)
+                return self.wrap(pre, "let %s := (%s ++ [%s])\n" % (n, n, a) + nxt())
             raise Untranslatable("expression statement %s" % ast.unparse(v)[:40])
         if isinstance(s, ast.Assign):
             if len(s.targets) != 1: raise Untranslatable("chained assignment")
@@ -1018,9 +1082,13 @@ RD_SPECS = [
     RFn("relativedelta.__mul__", "mulDy", [("other", "Dy")], "RD"),
     RFn("relativedelta.__div__", "divPow2", [("other", "Pow2")], "RD"),
     RFn("relativedelta.normalized", "normalized", [], "RD"),
+    RFn("relativedelta.__repr__", "repr", [], "Str"),
+    RFn("relativedelta.weeks", "weeks", [], "Int", pick="getter"),
+    RFn("relativedelta.weeks", "setWeeks", [("value", "Int")], "RD", returns_self=True, pick="setter"),
     RFn("relativedelta.__bool__", "bool", [], "Bool"),
     RFn("relativedelta.__eq__", "eq", [("other", "RD")], "Bool"),
     RFn("relativedelta.__hash__", "hashKey", [], "HashKey"),
+    RFn("relativedelta.__ne__", "ne", [("other", "RD")], "Bool"),
     # relativedelta(dt1, dt2)
     RFn("relativedelta.__init__", "initDiff", [("dt1", "Temporal"), ("dt2", "Temporal")], "RD",
         init_self=True, returns_self=True, ctx=[("off", "Nat → DT → Int")]),
@@ -1037,6 +1105,13 @@ def translate_module(src_root, relfile, specs):
     parts, fps = [], {}
     for sp in specs:
         fn = find_function(tree, sp.qualname)
+        if sp.pick:
+            cname, fname = sp.qualname.split(".")
+            cands = [n for n in find_function(tree, cname).body if isinstance(n, ast.FunctionDef) and n.name == fname]
+            want = "property" if sp.pick == "getter" else fname + ".setter"
+            cands = [n for n in cands if [ast.unparse(d) for d in n.decorator_list] == [want]]
+            if len(cands) != 1: raise Untranslatable("%s of property %s" % (sp.pick, sp.qualname))
+            fn = cands[0]
         cls = TrTD if any(t == "TD3" for _, t in sp.params) else Tr
         tr = cls(sp, {})
         try:
